@@ -29,6 +29,14 @@ REQUIRED = ['mean_first_passage_time/first_passage_equation', 'diffusion_efficie
 CASE_TIMEOUT = {'quick': 30.0, 'thorough': 180.0}
 
 
+
+def _cc_und(rs, n, binary=False, p=.15):
+    A = np.triu((rs.rand(n, n) < p).astype(float), 1)
+    A[np.arange(n - 1), np.arange(1, n)] = 1      # a spanning path keeps it connected
+    W = A if binary else A * (rs.rand(n, n) * .9 + .1)
+    return W + W.T
+
+
 def cases(tier, seed):
     thorough = tier == 'thorough'
     out = []
@@ -85,6 +93,7 @@ def cases(tier, seed):
     for i, g in enumerate(strong):
         for w in ('bin', 'real'):
             out.append({'kind': 'walk', 'g': g, 'directed': True, 'w': w, 'ws': i})
+    out.append({'kind': 'concurrent', 'g': ['named', 'path', 2], 'directed': False, 'ws': seed, 'schemes': [], 'n': 220 if tier == 'thorough' else 120})
     return out
 
 
@@ -217,6 +226,10 @@ def run_walk(case, bct, REC):
 
 
 def run(case, bct, REC):
+    if case.get('kind') == 'concurrent':
+        from .common import concurrent_callers_agree
+        REC.tag(PROP, 'exec')
+        return concurrent_callers_agree(REC, PROP, bct, [('pagerank_centrality', lambda rs, n: (_cc_und(rs, n, False, .2), .85)), ('subgraph_centrality', lambda rs, n: (_cc_und(rs, n, True, .05),)), ('mean_first_passage_time', lambda rs, n: (_cc_und(rs, n, False, .3),))], case['n'], case['ws'])
     if case['kind'] == 'spectral':
         run_spectral(case, bct, REC)
     else:
